@@ -70,6 +70,7 @@ def run(R):
                  "UpdateSpendingPoolProposal.ValidateBasic (quorum within [0,1]) is modelled as in the current tree",
                  "scripted atomicity scenarios (spending distribution / withdraw, basket withdraw-surplus, gov durations): the 'complete effect' predicate and the byte-wise store comparison are computed by the harness; collectives handlers are pinned by the error-shape table but not scripted",
                  "block times carry nanoseconds (model time unit = ns); periods are whole seconds as in the code",
+                 "permission state: actors with individual whitelist + blacklist and roles 1 (sudo) and 3 (probe) with their whitelists/blacklists restricted to the ten permissions the harness uses; the checker evolves its own ghost copy of these records from the accepted edits",
                  "address rotation: only MsgRotateRecoveryAddress onto an address without actor record is exercised; content rewrites of slash-validator proposals (recovery, RefuteSlashingProposal), the automatic slash proposal of slashing.Jail and InitGenesis are pinned as writers (C08_lifecycle_writers_pinned) but outside the model"]
     if not R.gen("gen_govhandlers", "GovHandlers.v"):
         # the tree is outside the translator's fragment (already a broken obligation): fall back to the
